@@ -478,9 +478,9 @@ class C18(Prop):
             # the pickled function / argument files a PythonJob reads are uploaded by the client itself, not by a job
             code_in = [x for x in ins if x[0].startswith(remote + '/') and x[0].endswith('.p') and
                        ('/functions/code' in x[0] or '/args/code' in x[0])]
-            jobs.append({'cmds': list(getattr(j, '_command', [])), 'cmd': cmd, 'in': [x for x in ins if x not in code_in], 'code_in': code_in,
+            jobs.append({'cmds': list(j.__dict__.get('_command', [])), 'cmd': cmd, 'in': [x for x in ins if x not in code_in], 'code_in': code_in,
                          'out': [tuple(x) for x in (kw.get('output_files') or [])], 'par': parents, 'sym': syms,
-                         'python': not hasattr(j, '_command')})
+                         'python': '_command' not in j.__dict__})      # never getattr(): Job.__getattr__ creates resources
         return {'status': 'ok', 'jobs': jobs, 'xin': xin, 'canon': canon, 'env': env, 'mentions': mentions, 'outs': out_stmts, 'batch': b,
                 'local': local, 'remote': remote}
 
@@ -600,7 +600,7 @@ class C18(Prop):
             elif op == 'igroup':
                 handles.append([i for i, _ in s['files']])
             elif op in ('job', 'pyjob'):
-                jobs.append({'groups': {}, 'valid': set(), 'ext': set(), 'attrs': set()})
+                jobs.append({'groups': {}, 'valid': set(), 'ext': set(), 'attrs': set(), 'python': op == 'pyjob'})
             elif op == 'rgroup':
                 jobs[s['j']]['groups'][s['gname']] = [i for i, _ in s['files']]
                 jobs[s['j']]['valid'].add(s['gname'])
@@ -625,8 +625,8 @@ class C18(Prop):
                 jobs[s['j']]['attrs'].add(s['name'])
             elif op == 'out':
                 p = s['ref']
-                if p[0] == 'a' and p[2] not in jobs[p[1]]['groups'] and p[2] not in jobs[p[1]]['valid']:
-                    return True
+                if p[0] == 'a' and not jobs[p[1]]['python'] and p[2] not in jobs[p[1]]['groups'] and p[2] not in jobs[p[1]]['valid']:
+                    return True          # (the check in write_output only looks at resources of BashJobs)
         return False
 
     @staticmethod
